@@ -386,6 +386,23 @@ pub fn run(c: &Ctx) {
             c.sample(|| json!({"kind":"abs","cwd":"/a/b","s":s}));
         }
     });
+    // letters whose lower- or upper-case form has another byte length (İ, Ⱥ, the Kelvin sign, ß, ŉ), next to doubled
+    // separators and scheme-like prefixes: every string of up to three symbols
+    {
+        let alt: &[&str] = &["İ", "Ⱥ", "\u{212a}", "ß", "//", "/", "a", "file://", ":"];
+        let strs = all_strings(alt, 3);
+        par_for(strs.len() as u64, 64, |i| {
+            let s = &strs[i as usize];
+            mark("abs", s);
+            c.eval(3);
+            c.nontrivial(fp(&("abs-case-length", s)));
+            c.class("abs:letters-changing-length-under-case-mapping");
+            for cwd in ["/", "/a/b"] {
+                c.judge("abs", &json!([cwd, s]), check_abs(cwd, s, &env, false));
+            }
+            c.judge("abs-both", &json!([base_s, s]), check_abs(&base_s, s, &env, true));
+        });
+    }
     c.set_exhaustive(true);
     let cases = c.tier.pick(60_000, 1_000_000);
     let env2 = env.clone();
@@ -506,6 +523,33 @@ pub fn run(c: &Ctx) {
                     }
                 },
                 None => c.inconclusive(&format!("deleted-cwd probe: {}", r[0])),
+            },
+            Err(x) => c.inconclusive(&format!("envprobe child failed: {}", x)),
+        }
+    }
+    // the cwd's own name is not valid UTF-8 (a Latin-1 directory): a relative argument is still joined onto it
+    {
+        let mut e = Env::new();
+        e.insert("HOME".into(), "/h/me".into());
+        let odd = format!("{}/odd-cwd", base_s);
+        let paths = ["notes.txt", ".", "sub/x", "./a/../b", "file://notes.txt", "a//b/"];
+        let want_tail = ["/notes.txt", "", "/sub/x", "/b", "/notes.txt", "/a/b"];
+        c.eval(paths.len() as u64);
+        c.class("stdfs-abs-from-a-non-utf8-cwd");
+        match probe(&e, &[json!({"op":"abs_std_oddcwd","dir":odd,"paths":paths})]) {
+            Ok(r) => match (r[0].get("list").and_then(|l| l.as_array()), r[0].get("cwd_bytes").and_then(|x| x.as_str())) {
+                (Some(list), Some(cwd)) if !cwd.is_empty() => {
+                    for ((p, tail), got) in paths.iter().zip(want_tail.iter()).zip(list.iter()) {
+                        c.nontrivial(fp(&("oddcwd", p)));
+                        let want = format!("{}{}", cwd, tail.bytes().map(|b| format!("{:02x}", b)).collect::<String>());
+                        let res = match got.get("ok_bytes").and_then(|x| x.as_str()) {
+                            Some(g) if g == want => Ok(()),
+                            _ => Err(Failure::new("abs|relative-from-a-non-utf8-cwd|stdfs", format!("Stdfs::abs({:?}) from the cwd with bytes {} = {} want bytes {}", p, cwd, got, want))),
+                        };
+                        c.judge("abs-oddcwd", &json!([p]), res);
+                    }
+                },
+                _ => c.inconclusive(&format!("non-UTF-8 cwd probe: {}", r[0])),
             },
             Err(x) => c.inconclusive(&format!("envprobe child failed: {}", x)),
         }
